@@ -1024,7 +1024,7 @@ def gen_tune(rng, table, ref, budget, flavour):
                 pos -= 1
             toks.insert(pos, ['in', rng.choice([['P', 'A'], ['V', '1']])])
         else:
-            lines.insert(rng.randint(1, len(lines)), ['f', rng.choice([['P', 'AB'], ['V', '1 clef=treble']])])
+            lines.insert(rng.randint(min(1, len(lines)), len(lines)), ['f', rng.choice([['P', 'AB'], ['V', '1 clef=treble']])])
     body = split_lines(rng, sanitize(toks))
     if rng.random() < 0.08 and len(body) > 1:
         # an information field on its own line inside the body
